@@ -267,3 +267,22 @@ Proof.
   split; [vm_compute; reflexivity|].
   split; [vm_compute; reflexivity|]. split; [left; reflexivity|]. vm_compute. reflexivity.
 Qed.
+
+(** * the bound on the text is needed: a CharString of 2^63 + 10 one-byte characters (one run; no such
+    str exists in Rust), max = 2^63 + 5, ctx = 0: the unbounded model gives two windows, the second
+    window of the machine model computes 2^63+5 + 2^63+5 *)
+Definition big_cs : cstr := mkcs [(1, 9223372036854775818)] 9223372036854775818 9223372036854775818.
+Lemma isize_bound_needed_l :
+  exists cs max ctx,
+    c_rle cs = [(1, c_len cs)] /\ c_blen cs = c_len cs /\ c_len cs < W /\ ISIZE_MAX < c_blen cs
+    /\ 2 * ctx < max /\ max < W
+    /\ (exists wins, char_loop 3 cs max ctx 0 = Ok wins /\ length wins = 2%nat)
+    /\ mchar_loop Checked (fun _ => true) 3 cs max ctx 0 = Fault 15
+    /\ mchar_loop Wrapping (fun _ => true) 3 cs max ctx 0 = Panic 4.
+Proof.
+  exists big_cs, 9223372036854775813, 0.
+  split; [reflexivity|]. split; [reflexivity|]. split; [reflexivity|]. split; [reflexivity|].
+  split; [reflexivity|]. split; [reflexivity|].
+  split; [eexists; split; [vm_compute; reflexivity|reflexivity]|].
+  split; vm_compute; reflexivity.
+Qed.
